@@ -188,9 +188,15 @@ def obligations(tier, seed):
             jobs.append((sk, li))
     rnd.shuffle(jobs)
     n = 60 if tier == "quick" else 1500
-    for sk, li in jobs[:n]:
+    jobs = jobs[:n]
+    # every physical line of the rule-specific skeletons (incl. the rules that edit text directly)
+    for sk in poolfam.direct_edit_skeletons():
+        for li, l in enumerate(sk.text.split("\n")):
+            if l.strip():
+                jobs.append((sk, li))
+    for sk, li in jobs:
         tr = sk.meta.get("rule") or "format_code:safe=1"
-        for t in {tr, "format_code:safe=1"}:
+        for t in sorted({tr, "format_code:safe=1", "format_code:safe=0"} if sk.sid.startswith("de/") else {tr, "format_code:safe=1"}):
             obs.append(Obligation("pool/%s/%s/line%d" % (t, sk.sid, li), ob_pool,
                                   {"skeleton": sk.to_json(), "transform": t, "line_index": li}, hard_timeout=120,
                                   sample={"program": sk.text[-300:], "annotated_line": li, "transform": t}))
